@@ -25,6 +25,7 @@ type tables struct {
 	cttsO          []int32
 	hasCtts        bool
 	cttsV          byte
+	cttsCall       []bool // cttsCall[i]: ctts entry i starts a new AddSampleCountsAndOffset call (incremental build)
 	stsc           [][3]uint32 // firstChunk, samplesPerChunk, sdi
 	uniform        uint32
 	n              uint32
@@ -48,6 +49,12 @@ func (t *tables) line() string {
 	if t.hasCtts && len(t.cttsC) > 0 {
 		s = s[:0]
 		for i := range t.cttsC {
+			if i > 0 && i < len(t.cttsCall) && t.cttsCall[i] {
+				// third component: this entry starts a new AddSampleCountsAndOffset call (the table semantics, and
+				// hence the model, do not depend on how the table was put together)
+				s = append(s, fmt.Sprintf("%d:%d:1", t.cttsC[i], t.cttsO[i]))
+				continue
+			}
 			s = append(s, fmt.Sprintf("%d:%d", t.cttsC[i], t.cttsO[i]))
 		}
 		p = append(p, strings.Join(s, ","))
@@ -81,6 +88,8 @@ func (t *tables) line() string {
 			s = append(s, strconv.Itoa(int(x)))
 		}
 		p = append(p, strings.Join(s, ","))
+	} else if t.hasStss {
+		p = append(p, "e") // stss present with entry_count 0: no sample is a sync sample
 	} else {
 		p = append(p, "-")
 	}
@@ -113,6 +122,7 @@ func parseTablesLine(f []string) (*tables, error) {
 				t.cttsV = 1
 			}
 			t.cttsO = append(t.cttsO, int32(o))
+			t.cttsCall = append(t.cttsCall, len(p) > 2 && p[2] == "1")
 		}
 	}
 	for _, x := range strings.Split(f[2], ",") {
@@ -138,7 +148,9 @@ func parseTablesLine(f []string) (*tables, error) {
 			}
 		}
 	}
-	if f[5] != "-" {
+	if f[5] == "e" {
+		t.hasStss = true
+	} else if f[5] != "-" {
 		t.hasStss = true
 		for _, x := range strings.Split(f[5], ",") {
 			t.stss = append(t.stss, uint32(atoi(x)))
@@ -159,8 +171,20 @@ func (t *tables) build() (*mp4.TrakBox, error) {
 	stbl.AddChild(&mp4.SttsBox{SampleCount: t.sttsC, SampleTimeDelta: t.sttsD})
 	if t.hasCtts {
 		c := &mp4.CttsBox{Version: t.cttsV}
-		if err := c.AddSampleCountsAndOffset(t.cttsC, t.cttsO); err != nil {
-			return nil, err
+		// one AddSampleCountsAndOffset call per marked group of entries (a table built incrementally, e.g. one
+		// call per GoP or fragment); without marks: a single call
+		start := 0
+		for i := 1; ; i++ {
+			if i >= len(t.cttsC) || (i < len(t.cttsCall) && t.cttsCall[i]) {
+				end := minInt(i, len(t.cttsC))
+				if err := c.AddSampleCountsAndOffset(t.cttsC[start:end], t.cttsO[start:end]); err != nil {
+					return nil, err
+				}
+				if end == len(t.cttsC) {
+					break
+				}
+				start = end
+			}
 		}
 		stbl.AddChild(c)
 	}
@@ -530,6 +554,18 @@ func genTables(c *Ctx) (*tables, *expanded) {
 				e.cto = append(e.cto, o)
 			}
 		}
+		// how the table is put together: one call, one call per entry, or random groups of entries
+		t.cttsCall = make([]bool, len(t.cttsC))
+		switch r.Intn(3) {
+		case 1:
+			for i := 1; i < len(t.cttsCall); i++ {
+				t.cttsCall[i] = true
+			}
+		case 2:
+			for i := 1; i < len(t.cttsCall); i++ {
+				t.cttsCall[i] = r.Intn(3) == 0
+			}
+		}
 	} else {
 		e.cto = make([]int32, n)
 	}
@@ -605,9 +641,7 @@ func genTables(c *Ctx) (*tables, *expanded) {
 			e.sync[i] = true
 		}
 	case 1:
-		t.hasStss = true // present but empty -> line cannot express; make it one entry
-		t.stss = []uint32{1}
-		e.sync[0] = true
+		t.hasStss = true // present but empty ("e" in the line): no sample is sync
 	default:
 		t.hasStss = true
 		for i := 0; i < n; i++ {
